@@ -207,7 +207,8 @@ func generate(a *hx.Args, mode string) ([]label, int) {
 			g.streams = append(g.streams, &stream{c: c, svch: p[0], spch: p[1], ts: tsBase, first: true, waiting: c.waitv[p[0]]})
 		}
 		for k := 1; k <= 2; k++ {
-			if r.Intn(2) == 0 {
+			// (no registration while the collection's handler waits for a channel: AddPartition finds no handler and gives up)
+			if r.Intn(2) == 0 && len(c.waitv) == 0 {
 				pn := fmt.Sprintf("p%d", k)
 				l := label{kind: "addpart", c: c, pid: c.id*100 + int64(k), pname: pn}
 				// the partition was dropped upstream while CDC was down: each shard handler that resumed from a position
